@@ -38,6 +38,16 @@ def execute(case):
             g.set_max_clique_size(pre["m0"])
             if pre.get("only_list"):
                 g.limited_maximal_cliques()
+            elif pre.get("abort") is not None:
+                # crash point: that earlier run was abandoned part-way; the caller adds the same edges again and starts over
+                from ..crash import count_lines, abort_at
+                import copy as _copy
+                g2 = _copy.deepcopy(g)
+                total = Oracle().run_seeded(pre.get("seed", 3), lambda: count_lines(g2.get_EECC))
+                out = Oracle().run_seeded(pre.get("seed", 3), lambda: abort_at(g.get_EECC, max(1, int(pre["abort"] * total))))
+                tr["pre_abort_outcome"] = out
+                for e in edges:
+                    g.add_edge(e)
             else:
                 Oracle().run_seeded(pre.get("seed", 3), g.get_EECC)
                 for e in edges:
@@ -161,6 +171,15 @@ def run(chk):
             for m0a, m0b in ((4, 2), (3, 2), (2, 3), (5, 3), (4, 3)):
                 traces.append(execute({"edges": es, "m0": m0b, "rng": ("seed", rng.randrange(1 << 30)),
                                        "pre": {"m0": m0a, "seed": rng.randrange(1 << 30), "only_list": (gi + m0a) % 2 == 0}}))
+    # crash points: the earlier run on the same object was abandoned part-way, the caller adds the edges again and starts over
+    for n in (4, 5, 6):
+        for rep in range(50 if not thorough else 500):
+            es = [e for e in itertools.combinations(range(1, n + 1), 2) if rng.random() < rng.choice([0.6, 0.85, 1.0])]
+            if es:
+                m0 = rng.choice([2, 3, 4, 5])
+                traces.append(execute({"edges": es, "m0": m0, "rng": ("seed", rng.randrange(1 << 30)),
+                                       "pre": {"m0": rng.choice([m0, m0, 3]), "seed": rng.randrange(1 << 30), "abort": rng.choice([0.1, 0.3, 0.5, 0.7, 0.9])}}))
+    chk.extra["covers_judged_after_an_abandoned_run_on_the_same_object"] = sum(1 for t in traces if t.get("pre_abort_outcome") == "aborted")
     # (ii) the repo's fixture, overlapping K5/K6 unions, G(n,p)
     fixture = [(1, 2), (1, 14), (2, 4), (2, 13), (2, 14), (3, 4), (3, 5), (4, 5), (4, 13), (4, 14), (6, 7), (6, 13), (7, 8), (7, 13),
                (8, 9), (8, 13), (9, 10), (9, 11), (9, 13), (10, 11), (11, 12), (12, 13), (13, 14)]
